@@ -433,19 +433,28 @@ def run_case(ctx, cfg, ops, model, sample=True):
             ctx.fail(sig, case, bad[0][1])
 
 
-def run(ctx):
+def run_range(ctx, lo, hi):
     model = None if getattr(ctx, "model_unavailable", False) else leanproc.LeanProc(ID)
     try:
-        for i in range(ctx.n(600, 8000)):
+        for i in range(lo, hi):
             r = ctx.rng("case", i)
             run_case(ctx, gen_cfg(r), gen_ops(r), model)
             if i % 25 == 24:
-                gc.collect()
+                gc.collect()        # stopped machines are cyclic garbage
             if len(ctx.failures) >= 3 or ctx.hist.get("further_failing_cases", 0) >= 20:
-                break
+                break       # the verdict is settled; do not burn the budget on more witnesses
     finally:
         if model is not None:
             model.close()
+
+
+def run(ctx):
+    total = ctx.n(600, 8000)
+    if total <= 1000:
+        run_range(ctx, 0, total)
+    else:       # thorough tier / failing-input search: fresh worker processes, 300 cases each
+        from harness.common import pool_c20c11
+        pool_c20c11.run_parallel(ctx, "harness.corr." + ID, total)
 
 
 def replay(ctx, rep):
